@@ -366,6 +366,30 @@ def check(run, driver):
             run.corr_fail("discover-level", case, r, None, "driver error"); continue
         DC.compare_with_model(run, "discover-level", case, o, r["ok"], names)
         run.traces += 1
+    # ---- "each surviving predictor yields exactly one edge labelled with its variable and lag": whole discover_network runs on coded
+    #      series with a scripted estimator (permissive levels, few estimator levels: several survivors per target, several lags per source),
+    #      replayed through the model of discover (the function the end-to-end theorems of CEProofs/Master.lean are about)
+    ereqs, emeta = [], []
+    for it in range(60 if thorough else 24):
+        n = int(rng.integers(1, 4)); L = int(rng.integers(2, 4)); T = L + 4 + int(rng.integers(0, 8))
+        method = ("standard", "alternative")[it % 2]
+        levels = int(rng.choice([4, 16, 1024])); salt = int(rng.integers(0, 1000))
+        s_ = DC.coded_series(T, n)
+        est = DC.ScriptedEstimator(levels, salt, False)
+        o = DC.observe(s_.copy(), est, method=method, information="knn", max_lag=L, alpha_forward=0.5, alpha_backward=0.5, n_shuffles=3)
+        case = {"n": n, "max_lag": L, "T": T, "method": method, "estimator_script": {"levels": levels, "salt": salt}, "series": "coded: s[t][j] = t*n + j"}
+        if "error" in o:
+            run.prop_fail("discover_network raises on a valid request", case, {"clause": "total"}, o["error"]); continue
+        edges = DC.graph_edges(o["G"])
+        multi = len({(a, b) for a, b, *_ in edges}) < len(edges)
+        run.case("edges-per-survivor", [n, L, T, method, levels, salt], multi, sample={**case, "edges": [(a, b, l) for a, b, l, *_ in edges][:6]})
+        emeta.append((case, o, [f"X{i}" for i in range(n)]))
+        ereqs.append(DC.model_request(s_, n, method, "knn", L, 0.5, 0.5, 3, o["perms"], o["lasso"], levels, salt, False))
+    for (case, o, names), r in zip(emeta, driver.run_sharded(ereqs)):
+        if "ok" not in r:
+            run.corr_fail("edges-replay", case, r, None, "driver error"); continue
+        DC.compare_with_model(run, "edges-replay", case, o, r["ok"], names)
+        run.traces += 1
     for m_ in MUTATED[:3]:
         run.prop_fail("backward() prunes the caller's list of accepted predictors in place (a forward result re-used for another backward order is then no longer the forward result)",
                       m_, {"clause": "purity", "function": "backward"})
